@@ -77,6 +77,9 @@ func NewEnvClock(clock int) *Env {
 		// a basket whose years-in-the-past boundary (1 January 2019 at the seed's block year 2024)
 		// is exactly the start date of batch b2: admission depends on how that calendar date is built
 		scen.YearsBasket("KYR", 5),
+		// a buyer fee is in force, so that a purchase without a sufficient max fee is a message that FAILS in
+		// the handler (not in stateless validation), as often as the traces repeat it
+		scen.GovFeeParams(scen.G, "0.1", "0"),
 	).Build(sc)
 	eco := sc.Eco.ExportGenesis(sctx, sc.Cdc)
 	dat, err := sc.DataSrv.ExportGenesis(sctx, sc.Cdc)
